@@ -227,7 +227,13 @@ def r5(run):
     c06.r7(run)
 
 
+def r6(run):
+    from . import C15 as c15
+    c15.r1(run)
+
+
 RULES = [
+    ("R-C14-6", "own output is always recognisable: handler_id is stamped over (not under) whatever meta the closure supplied (shared with R-C15-1)", r6),
     ("R-C14-1", "own output is filtered: process_frame only on the 'meta.handler_id != self.id' edge; stamp / filter / compaction keys agree", r1),
     ("R-C14-2", "registration traffic of its own name with id <= self.id is skipped without any effect", r2),
     ("R-C14-3", "one frame at a time: no spawn below serve, processing awaited in the loop, one worker thread per handler", r3),
